@@ -384,12 +384,15 @@ class Model(AbstractPriorModel):
         ):
             try:
                 if "_" in key:
-                    name = key.split("_")[0]
+                    # name_0, name_1... are the members of the tuple argument "name"
+                    name = key.rsplit("_", 1)[0]
                     tuple_prior = [v for k, v in self.tuple_prior_tuples if name == k][
                         0
                     ]
-                    setattr(tuple_prior, key, value)
-                    return
+                    # a constructor argument is always an attribute of the model itself
+                    if key not in self.constructor_argument_names:
+                        setattr(tuple_prior, key, value)
+                        return
             except IndexError:
                 pass
         try:
@@ -406,9 +409,11 @@ class Model(AbstractPriorModel):
                 and not item.startswith("_")
             ):
                 return getattr(
-                    [v for k, v in self.tuple_prior_tuples if item.split("_")[0] == k][
-                        0
-                    ],
+                    [
+                        v
+                        for k, v in self.tuple_prior_tuples
+                        if item.rsplit("_", 1)[0] == k
+                    ][0],
                     item,
                 )
 
